@@ -428,17 +428,24 @@ type c05Sink struct{ n int }
 func (s *c05Sink) WritePacket(p *packet.Packet) (int, error) { s.n++; return packet.PacketSize, nil }
 
 func c05Streams(res *engine.Result, in []byte) {
-	for _, one := range []bool{false, true} {
+	for mode := 0; mode < 5; mode++ {
+		one := mode == 1
 		rd := func() io.Reader {
-			if one {
+			switch mode {
+			case 1:
 				return iotest.OneByteReader(bytes.NewReader(in))
+			case 2:
+				return iotest.DataErrReader(bytes.NewReader(in))
+			case 3:
+				// the reader fails (not with EOF) after half of the stream, handing out data with the error
+				return &ref.ScriptedReader{Data: in, Chunk: 100, FailCall: 1 + len(in)/200, FailWithData: true}
+			case 4:
+				return iotest.TimeoutReader(bytes.NewReader(in))
 			}
 			return bytes.NewReader(in)
 		}
-		sfx := ""
-		if one {
-			sfx = "(one-byte reader)"
-		}
+		sfx := [...]string{"", "(one-byte reader)", "(data with EOF)", "(failing reader)", "(timeout reader)"}[mode]
+		_ = one
 		g(res, "packet.Sync"+sfx, func() {
 			br := bufio.NewReaderSize(rd(), 16)
 			sink(packet.Sync(br))
@@ -1540,7 +1547,7 @@ func init() {
 			c05Scenario("generated-pmt", "gen-pmt", "structure-aware PMT inputs: 4 reference-built tables x every combination of deltas on four RELATED length fields (section_length -8..+8, program_info_length -3..+3, ES_info_length of the last described stream -6..+6, its last descriptor_length -4..+4), each with the stale CRC_32 and with a CRC_32 recomputed where the new section_length puts it; run through NewPMT (all getters, printers), the accumulator completion predicate and ExtractCRC."+common),
 			c05Scenario("periodic-long-payloads", "gen-periodic", "cursor-cycle family for the PMT entry points that take a whole PID payload (NewPMT, the accumulator completion predicate, FilterPMTPacketsToPids on the payload cut into 184-byte packets): pointer_field 0 | a first section with table_id {00, 42, 02} and section_length 0..8 | a well-formed one-stream PMT section | 0xFF, overlaid with a chain of elementary-stream entries of constant step {16, 256, 4096 (divisors of 2^16: a 16-bit cursor cycles), 5} that starts where a reader taking the first section for the PMT starts its stream loop (8 start phases through the PCR_PID), total lengths {4096, 65504, 65688, 66240} (356/357/360 packets), the stream PID of the PMT carried by no entry / the last entry before the 64 KiB mark and the last one / every entry; request lists: {0x65,0x66}, all PIDs NewPMT reports, one present + one absent; additionally at most as many packets out as in and input packets unchanged."+common),
 			c05Scenario("packet-grid", "grid", "packet accessors, modifiers and packet-level PSI helpers on packets with adaptation_field_control 0..3 x adaptation_field_length from 30 boundary values (thorough: all 256) x all 256 flag bytes x private-data length and extension length bytes from {00,01,7F,B0,FF} plus the four values around 'ends exactly on the last byte of the packet' for the given flags, placed where the flags put them."+common),
-			c05Scenario("stream-sequences", "streamseq", "stream readers (Sync, IsSynced, ReadPAT, ReadPMT, IOWriter Write/ReadFrom, the cli pipeline) on every sequence of <=3 packets from a 16-packet alphabet (good PAT/PMT, PMT split 3+rest, null, single-field corruptions: section_length 0x3FF, pointer_field 0xFF, ES_info_length/program_info_length 0xFFF, adaptation_field_length 0xFF/183, AF-only, no sync byte; and a two-packet unit on the PMT PID with two complete private sections reaching into the second packet and an incomplete third), whole and — for sequences of <=2 (quick: a subset) — cut at every byte length; default and one-byte-at-a-time readers."+common),
+			c05Scenario("stream-sequences", "streamseq", "stream readers (Sync, IsSynced, ReadPAT, ReadPMT, IOWriter Write/ReadFrom, the cli pipeline) on every sequence of <=3 packets from a 16-packet alphabet (good PAT/PMT, PMT split 3+rest, null, single-field corruptions: section_length 0x3FF, pointer_field 0xFF, ES_info_length/program_info_length 0xFFF, adaptation_field_length 0xFF/183, AF-only, no sync byte; and a two-packet unit on the PMT PID with two complete private sections reaching into the second packet and an incomplete third), whole and — for sequences of <=2 (quick: a subset) — cut at every byte length; default, one-byte-at-a-time, data-with-EOF, failing (injected error with data after half of the stream) and timeout readers."+common),
 		},
 	})
 }
